@@ -52,7 +52,11 @@ def oracle_atoms(atoms):
             # Buffer.reset / a new prompt: a new session; its history starts here
             past, last_landing, prev_effective_undo, pending = [], None, None, []
             continue
-        past.append(pre)
+        if a.get("boundary", True):
+            # only the state at the START of a command (dispatch / direct call) is a
+            # command boundary; states between the undo() calls of one dispatch and
+            # before the Vi cursor fix-up are not
+            past.append(pre)
         if kind == "undo":
             if post != pre:
                 bound = len(past) - 1 if last_landing is None else last_landing
@@ -526,6 +530,7 @@ async def run_key_case(spec):
                 ok = s.feed(undo_tok)
             exhausted = ok and not s.buf._undo_stack
         res = {"init": init, "first": first, "events": s.events, "problems": s.problems, "ended": s.ended,
+               "tail_ran": bool(ok and spec.get("tail", True)), "stack_left": list(s.buf._undo_stack),
                "exhausted": exhausted, "final": s.state(), "nbindings": len(s.bindings)}
         try:
             await s.app.cancel_and_wait_for_background_tasks()
@@ -580,6 +585,7 @@ def key_case_to_model(res):
             evs.append([1, e["h"], len(e["undos"]), S(e["post"][0]), e["post"][1]])
         out.append([1 if e["saves"] else 0, [0, S(e["post"][0]), e["post"][1], stack_sx(e["ustack"]), stack_sx(e["rstack"])]])
         if e["undos"]:
+            first_atom = len(atoms)
             if e["saves"]:
                 atoms.append({"kind": "cmd", "pre": e["pre"], "post": e["pre"], "redo_len_after": 0, "edit": False, "saved": True})
             for (p, q) in e["undos"]:
@@ -587,6 +593,8 @@ def key_case_to_model(res):
             last = e["undos"][-1][1]
             if last != e["post"]:
                 atoms.append({"kind": "cmd", "pre": last, "post": e["post"], "redo_len_after": len(e["rstack"]), "edit": False, "saved": False})
+            for q_, a_ in enumerate(atoms[first_atom:]):
+                a_["boundary"] = (q_ == 0)     # one command boundary per dispatch
         else:
             atoms.append({"kind": "cmd", "pre": e["pre"], "post": e["post"], "redo_len_after": len(e["rstack"]),
                           "edit": e["row"][1] == 0 and e["row"][0] != 0, "saved": bool(e["saves"])})
@@ -779,6 +787,9 @@ def main(tier):
             if e["kind"] == "reset":
                 kstats["new_prompts_" + e["how"]] = kstats.get("new_prompts_" + e["how"], 0) + 1
                 continue
+            if e["row"][1] == 1 and bool(e.get("nav")) != (e["role"] == 4):
+                chk.violation("tie", "Vi navigation mode at cursor fix-up time was %r for undo binding %s (the model derives it from the binding: Vi u <-> True)" % (e.get("nav"), e["keys"]),
+                              {"kind": "nav-flag"}, {"spec": spec}, no_input=True)
             if e["role"] == 7:
                 chk.violation("tie", "a cursor position report was dispatched through _call_handler (process_keys must hand it to _handle_cpr_response)",
                               {"kind": "cpr-through-call-handler"}, {"spec": spec}, no_input=True)
@@ -811,6 +822,15 @@ def main(tier):
                 {"clause": "group", "cause": cause},
                 {"case": sx_norm(case), "spec": spec, "run": [a, b], "undo_event": k, "pre": pre, "post": post, "landed": landed,
                  "binding": "%s -> %s" % (e["keys"], e["name"]), "how": how})
+        if res["tail_ran"] and not res["exhausted"]:
+            # len(stack)+2 presses of the undo key must empty the undo stack (each
+            # press pops at least one entry); otherwise "repeated undo" never gets
+            # to the bottom and the clause below could not even be judged
+            oracle_bad.add(i)
+            chk.violation("oracle", "repeated presses of the undo key did not empty the undo stack (left: %r) [%s]" % (res["stack_left"][:3], how[:200]),
+                          {"clause": "undo-does-not-terminate", "mode": spec["mode"]}, {"case": sx_norm(case), "spec": spec, "how": how})
+        if spec.get("tail", True) and not res["tail_ran"]:
+            kstats["tail_not_run_session_ended"] = kstats.get("tail_not_run_session_ended", 0) + 1
         if res["exhausted"] and spec.get("tail", True):
             kstats["reach_start_checked"] += 1
             if res["final"][0] != res["init"][0]:
@@ -890,17 +910,21 @@ def main(tier):
     proof_gate(chk, pr)
     chk.coverage["rule"] = ("kind 0: (text, cursor, [Cmd save text cursor | Undo | Redo]) on a real Buffer (save_to_undo_stack / set_document / undo / redo) "
                             "and on the Coq model, state and both stacks compared after every op; exhaustive for all op lists of length <= 3 over "
-                            "{save,no save} x 4 states + Undo + Redo from 4 initial states, length 4 %s, plus random lists up to 40 ops over 9 texts. "
+                            "12 ops ({save,no save} x 4 states, Undo, Redo, 2 Buffer.reset documents) from 4 initial states, length 4 from 2 initial states %s, "
+                            "plus random lists up to 40 ops over 9 texts (7%% resets). "
                             "kind 1: random emacs/vi key sessions on a real PromptSession dispatched by the real KeyProcessor, each dispatch logged "
                             "(binding number in the regenerated table, undo() calls, resulting text/cursor, whether save_to_undo_stack ran) and replayed by the "
-                            "model, which takes the snapshot decision itself; followed by repeated presses of the real undo key. "
+                            "model, which takes the snapshot decision itself (undo keys: whole effect computed from the typed count; reports and new prompts as their own events); "
+                            "followed by repeated presses of the real undo key, which must empty the stack and end on the prompt's start text. "
                             "non-trivial = the case contains an undo that changed the buffer; distinct by hash of the whole case"
-                            % ("100%" if chk.tier == "thorough" else "15% sample"))
+                            % ("(all)" if chk.tier == "thorough" else "(10% sample)"))
     chk.assumptions += [
         "a command's effect on the buffer is abstracted to the (text, cursor) it leaves: everything a handler does besides calling undo()/redo() is an arbitrary payload in the theorems",
         "one buffer: focus stays on the default buffer (sessions end when a key moves focus, a handler raises, or the application exits); is_repeat across buffers is outside",
         "text changes made outside a key dispatch (async completion, application code calling Buffer methods) are outside the key-level theorems; the buffer-level theorems cover them as Cmd false",
         "which handlers call Buffer.undo/redo is read from their code objects' co_names (gen/gen_t_c07.py) and confirmed per dispatch by the wrapped Buffer.undo",
+        "Vi navigation mode when _fix_vi_cursor_position runs after an undo key is derived by the model from the binding (Vi u is registered under vi_navigation_mode and leaves the mode alone; emacs undo keys only exist in emacs mode) and compared per dispatch with the observed vi_navigation_mode(); the filter itself (vi_state.input_mode, temporary navigation mode) is not modelled",
+        "the count passed to an undo key (KeyPressEvent.arg) is read from KeyProcessor.arg just before the dispatch; how the key processor accumulates it is C04/C05's model, not this one",
         "Binding identity (is_repeat) is modelled as equality of the binding's position in the merged registry, which is stable while no registry changes version",
     ]
     return chk.finish()
@@ -953,6 +977,9 @@ def replay(data):
             rc = 1
         for (a, b, k, pre, post, landed) in oracle_groups(res["events"])[1]:
             print("ORACLE FAILS: run of events %d..%d (%r -> %r) not undone as one group: one undo gave %r" % (a, b, pre, post, landed))
+            rc = 1
+        if res["tail_ran"] and not res["exhausted"]:
+            print("ORACLE FAILS: repeated presses of the undo key did not empty the undo stack: %r" % (res["stack_left"],))
             rc = 1
         if res["exhausted"] and res["final"][0] != res["init"][0]:
             print("ORACLE FAILS: repeated undo ended on %r, started with %r" % (res["final"][0], res["init"][0]))
